@@ -14,6 +14,9 @@ KANI_CRATE = os.path.join(VERIF, "kani")
 def _alt_crate():
     """Copy of the harness crate whose path dependencies point at $VERIF_REPO."""
     dst = os.path.join(WORK, "kani-crate-" + ALT_TAG)
+    if os.environ.get("VERIF_ALT_CRATE_READY") == dst:
+        return dst      # worker processes of this run: the copy is already there and in use
+    os.environ["VERIF_ALT_CRATE_READY"] = dst
     shutil.rmtree(dst, ignore_errors=True)
     shutil.copytree(KANI_CRATE, dst, ignore=shutil.ignore_patterns("target"))
     ct = os.path.join(dst, "Cargo.toml")
